@@ -309,7 +309,7 @@ def switch_on_variant(body, bb):
     m = {}
     for v, x in t["targets"]:
         m[names.get(v, str(v))] = x
-    return rv["pl"], rv.get("adt"), m, t["otherwise"], [v["name"] for v in rv.get("variants", [])]
+    return rv["pl"], rv.get("adt"), m, t["otherwise"], [v["name"] for v in rv.get("variants", [])], rv.get("ty", "")
 
 
 # -- await points -----------------------------------------------------------------------------
@@ -421,3 +421,63 @@ def infeasible_continue_blocks(body):
                 if len(body.pred_map()[t]) <= 1:
                     out.add(t)
     return out
+
+
+# -- maybe-initialised dataflow for one local (e.g. a lock guard) ------------------------------------
+
+def _moves_local(op, l):
+    return op.get("k") == "move" and op["pl"]["l"] == l and not op["pl"]["p"]
+
+
+def maybe_init_blocks(body, l):
+    """returns (init_in, init_at_term): sets of blocks where local `l` may be initialised at block entry /
+    at the terminator. Transfer: assignment or call-destination to `l` initialises; `move l` or Drop(l) de-initialises."""
+    nb = len(body.blocks)
+    init_in = [False] * nb
+    at_term = [False] * nb
+
+    def transfer(bb, st):
+        blk = body.blocks[bb]
+        for s in blk["stmts"]:
+            if s["k"] == "assign":
+                for o in rv_operands(s["rv"]):
+                    if _moves_local(o, l):
+                        st = False
+                if s["pl"]["l"] == l and not s["pl"]["p"]:
+                    st = True
+            elif s["k"] == "dead" and s["l"] == l:
+                st = False
+        t = blk["term"]
+        mid = st
+        outs = {}
+        k = t["k"]
+        if k == "call":
+            for a in t.get("args", []):
+                if _moves_local(a, l):
+                    st = False
+            mid = st     # state while the call executes: already moved if passed by value
+            if t.get("dest") and t["dest"]["l"] == l and not t["dest"]["p"]:
+                st = True
+        elif k == "drop":
+            if t["pl"]["l"] == l and not t["pl"]["p"]:
+                st = False
+        elif k == "yield":
+            mid = st
+        return mid, st
+
+    succ = body.succ_map()
+    work = [0]
+    seen_state = {}
+    init_in[0] = False
+    visited = set()
+    while work:
+        b = work.pop()
+        visited.add(b)
+        mid, out = transfer(b, init_in[b])
+        at_term[b] = at_term[b] or mid
+        for s in succ[b]:
+            new = init_in[s] or out
+            if s not in visited or new != init_in[s]:
+                init_in[s] = new
+                work.append(s)
+    return init_in, at_term
